@@ -202,7 +202,9 @@ def write_wkt(
         The path where the geometry should be written to.
     """
     with open(path, 'w') as f:
-        f.write(shapely.to_wkt(_to_multipolygon(dataset)))
+        # rounding_precision counts decimal places. No double needs more than this,
+        # and trailing zeros are trimmed, so every coordinate is written exactly.
+        f.write(shapely.to_wkt(_to_multipolygon(dataset), rounding_precision=340, trim=True))
 
 
 def write_wkb(
